@@ -28,6 +28,9 @@ elif prop.endswith("h"):        # eighth round: seeds numbered from 21
 elif prop.endswith("i"):        # ninth round: seeds numbered from 24
     prop = prop[:-1]
     dst_k = str(int(k) + 23)
+elif prop.endswith("j"):        # tenth round: seeds numbered from 27
+    prop = prop[:-1]
+    dst_k = str(int(k) + 26)
 else:
     dst_k = k
 summary = sys.argv[5] if len(sys.argv) > 5 else ""
